@@ -23,11 +23,19 @@ def lair_setup(it): LL.setup_lair(it, nrec=0, bob=False)
 def dist_setup(it): LD.setup_dist(it, 1, 1)
 def coll_setup(it): C10.setup_coll(it)
 def vrouter_setup(it): C06.router_world(it)
+def _router_tables(it):
+    # the factory registers the uluna/uusd pair and that pair answers the one-unit simulation add_swap_routes performs
+    FQ = PN + 'factory::QueryMsg'
+    info = it.mk(PN + 'asset::PairInfo', asset_infos=Agg('array', [nat(it, 'uluna'), nat(it, 'uusd')]), contract_addr=Str('the_pair'), liquidity_token=it.mkv(PN + 'asset::AssetInfo', 'Token', contract_addr=Str('the_lp')),
+                 asset_decimals=Agg('array', [6, 6]), pair_type=it.mkv(PN + 'asset::PairType', 'ConstantProduct'))
+    it.world.smart_table.append(('factory_contract', it.mkv(FQ, 'Pair', asset_infos=Agg('array', [nat(it, 'uluna'), nat(it, 'uusd')])), info))
+    sim = it.mk(PN + 'pair::SimulationResponse', return_amount=U128(it.ctx.sym('sim_ret', 64)), spread_amount=U128(0), swap_fee_amount=U128(0), protocol_fee_amount=U128(0), burn_fee_amount=U128(0))
+    it.world.smart_table.append(('the_pair', it.mkv(PN + 'pair::QueryMsg', 'Simulation', offer_asset=it.mk(PN + 'asset::Asset', info=nat(it, 'uluna'), amount=U128(1))), sim))
 def router_setup(it):
-    C15.router_world(it)
+    C15.router_world(it); _router_tables(it)
     it.world.cinfo = dict(code_id=7, creator='deployer', admin='owner')
 def router_setup_noadmin(it):
-    C15.router_world(it)
+    C15.router_world(it); _router_tables(it)
     it.world.cinfo = dict(code_id=7, creator='deployer', admin=None)
 def emgr_setup(it):
     EM = 'white_whale_std::epoch_manager::epoch_manager::'
@@ -135,6 +143,7 @@ def run_variant(ck, crate, setup, label, mk, designated, prog, known_open=False)
     paths = ck.explore(prog, body, tag, validate=False)
     # unsupported post-authorisation code is tolerated when the path condition already forces the designated caller
     del ck.inconclusive[ck.inconclusive_before:]
+    if not os.environ.get('VERIF_NO_REPLAY'): ck.validate(paths, tag)          # every fully interpreted path is still checked against the real contract
     caller = z3.Int('caller'); want = Str(designated).ident()
     nok = nrej = 0
     for p in paths:
@@ -192,9 +201,7 @@ def main():
             router_setup_noadmin(it)
             caller = Str(None, sym=it.ctx.sym('caller'))
             return enter(it, 'terraswap_router', 'execute', mk_env(it, 10**18), mk_info(ADDR(caller), []), mk(it))
-        n0 = len(ck.inconclusive)
-        paths = ck.explore(progs['terraswap_router'], body, 'terraswap_router.%s.noadmin' % label, validate=False)
-        del ck.inconclusive[n0:]
+        paths = ck.explore(progs['terraswap_router'], body, 'terraswap_router.%s.noadmin' % label)
         for p in paths:
             if p.ok or p.kind in ('unsupported', 'bound'):
                 ck.oblige('C16.terraswap_router.%s.noadmin' % label, p, z3.Int('caller') != Str('owner').ident(),
@@ -212,6 +219,8 @@ def main():
                       'AssertMinimumReceive is accepted from any caller (it only reads balances and writes nothing)', site='router AssertMinimumReceive has no sender check')
             ck.oblige('C16.terraswap_router.AssertMinimumReceive.readonly', p, len(p.world.writes) != 0 or len(messages(resp_of(p))) != 0, 'it writes nothing and sends nothing')
     transfer_then(ck, progs['terraswap_pair'], progs['vault'])
+    # vault router NextLoan / CompleteLoan: only the vault the factory registers for that asset (also: no registered vault at all)
+    C06.router_checks(ck, progs['vault_router'])
     try:
         import c16_trio
         c16_trio.run(ck)
@@ -219,7 +228,7 @@ def main():
         ck.outside.append('three-asset pool UpdateConfig not built')
     ck.bounds.update(variants='%d privileged ExecuteMsg variants of 13 contracts, one fixed representative payload each, sender a symbolic identity' % sum(len(v) for _, _, v in TABLE),
                      transfers='ownership transfer then privileged call for pair and vault')
-    ck.outside += ['incentive close_flow authorisation is C12.close.auth', 'vault-router NextLoan authorisation is C06.router.next.auth',
+    ck.outside += ['incentive close_flow authorisation is C12.close.auth', 
                    'that a rejected call leaves balances of every contract unchanged follows from atomicity (assumed); additionally no storage write precedes the rejection']
     return ck.finish()
 
